@@ -14,7 +14,7 @@
    below), the geometric correctness of ray casting (holes_assigned) and the composition
    build_polygon_recovers. *)
 From Coq Require Import ZArith List Bool Permutation Lia.
-From Verif Require Import Geo.Model Geo.JoinProofs Geo.Conserve Geo.Closes Geo.Cut Geo.Orient Geo.Sources Geo.Holes Geo.Annotate Geo.Edges Geo.Rings C16.Spec C16.RayQ.
+From Verif Require Import Geo.Model Geo.JoinProofs Geo.Conserve Geo.Closes Geo.Cut Geo.Orient Geo.Sources Geo.Holes Geo.Annotate Geo.Edges Geo.Rings Geo.GroupIdx Geo.Recover C16.Spec C16.RayQ.
 Import ListNotations.
 Open Scope Z_scope.
 
@@ -132,27 +132,54 @@ Proof. exact ms_area2_eq. Qed.
 Theorem C16_reverse_negates : forall l, shoelace (rev l) = - shoelace l.
 Proof. exact shoelace_rev. Qed.
 
-(* 5. orientation_annotation_truthful.  FULL STATEMENT (not proved): for every valid scene and
-      cut, after annotate_orientation every way member carries the direction its way runs
-      around its GROUND-TRUTH ring.
-      PROVED (partial): after annotate_orientation, every member whose way lies in a closed chain
-      of non-zero area carries the direction in which its original way runs around that chain
-      (chain direction, negated iff join/Group reversed the way); members in no chain are left
-      alone (frame).  Closedness of every chain is theorem 3b for every cut.
-      MISSING: that the chain IS the ground-truth ring (3b full), and the derivation of the
-      hypotheses "member indices distinct" (Group numbers members by position) and "non-zero
-      area" from the scene. *)
-Theorem C16_orientation_annotation_truthful_partial : forall members ways outers inners os t,
+(* 5. orientation_annotation_truthful (FULL).  ros / rhs: the outer and inner rings (distinct
+      vertices, >= 3 each, non-zero area); the outer / inner segments mputil.Group builds from
+      the members are ANY cut of them (any reversal, any member order).  Then annotate_orientation
+      succeeds, its chains are in bijection with the rings, each chain line IS its ring (from
+      some start vertex, in one direction), and every member whose way lies in chain c ends up
+      with the winding of that ring as traversed by the member's ORIGINAL way: the winding of
+      the chain line, negated iff Group/join reversed the way. *)
+Theorem C16_orientation_annotation_truthful : forall members ways ros rhs os t,
+  NoDup (concat ros) -> Forall (fun r => (3 <= length r)%nat) ros ->
+  NoDup (concat rhs) -> Forall (fun r => (3 <= length r)%nat) rhs ->
+  (forall r, In r (ros ++ rhs) -> Orient.shoelace (Rings.close_ring r) <> 0) ->
+  is_cut (map Rings.close_ring ros) (grp_outer (group members ways)) ->
+  is_cut (map Rings.close_ring rhs) (grp_inner (group members ways)) ->
+  annotate_orientation members ways = Some (os, t) ->
+  exists outers inners ros' rhs',
+    join (grp_outer (group members ways)) = JoinOk outers /\
+    join (grp_inner (group members ways)) = JoinOk inners /\
+    Permutation ros' ros /\ Permutation rhs' rhs /\
+    Forall2 (fun r c => is_ring_line r (ms_line c)) ros' outers /\
+    Forall2 (fun r c => is_ring_line r (ms_line c)) rhs' inners /\
+    forall c s, In c (outers ++ inners) -> In s c ->
+      nth (idx s) os 0 = way_direction (sign (Orient.shoelace (ms_line c))) s.
+Proof. exact annotate_orientation_recovers. Qed.
+Print Assumptions C16_orientation_annotation_truthful.
+
+(* Group numbers segments by member position: after the two joins the indices are distinct and
+   in range (hypotheses of the chain-level theorem below, discharged for every input) *)
+Theorem C16_grouped_chain_indices : forall members ways outers inners,
+  join (grp_outer (group members ways)) = JoinOk outers ->
+  join (grp_inner (group members ways)) = JoinOk inners ->
+  NoDup (map idx (concat (outers ++ inners))) /\
+  (forall ms s, In ms (outers ++ inners) -> In s ms -> (idx s < length members)%nat).
+Proof. exact grouped_chain_indices. Qed.
+Print Assumptions C16_grouped_chain_indices.
+
+(* chain-level form, for arbitrary (also malformed) relations: members in closed chains of
+   non-zero area get the direction of their original way; needs no scene hypotheses *)
+Theorem C16_orientation_annotation_chains : forall members ways outers inners os t,
   join (grp_outer (group members ways)) = JoinOk outers ->
   join (grp_inner (group members ways)) = JoinOk inners ->
   annotate_orientation members ways = Some (os, t) ->
   NoDup (map idx (concat (outers ++ inners))) ->
-  (forall ms, In ms (outers ++ inners) -> line_closed (ms_line ms) /\ shoelace (ms_line ms) <> 0) ->
+  (forall ms, In ms (outers ++ inners) -> line_closed (ms_line ms) /\ Orient.shoelace (ms_line ms) <> 0) ->
   (forall ms s, In ms (outers ++ inners) -> In s ms -> (idx s < length members)%nat) ->
   forall ms s, In ms (outers ++ inners) -> In s ms ->
-    nth (idx s) os 0 = way_direction (sign (shoelace (ms_line ms))) s.
+    nth (idx s) os 0 = way_direction (sign (Orient.shoelace (ms_line ms))) s.
 Proof. exact annotate_orientation_truthful. Qed.
-Print Assumptions C16_orientation_annotation_truthful_partial.
+Print Assumptions C16_orientation_annotation_chains.
 
 (* one chain *)
 Theorem C16_annotate_chain : forall o ms os s,
